@@ -803,7 +803,27 @@ fn drive(run: &mut Run, rng: &mut Rng, len: usize, out: &mut Out) {
                     _ => 3,
                 };
                 let bias = if rng.chance(2, 3) { 75 } else { 30 };
-                let msgs: Vec<Value> = (0..nm).map(|_| rand_msg(rng, &mut left, top, bias)).collect();
+                let mut msgs: Vec<Value> = (0..nm).map(|_| rand_msg(rng, &mut left, top, bias)).collect();
+                if rng.chance(1, 6) {
+                    // a holder of some permission flags sends the message kinds it may relay first and one it may not
+                    // relay after them (every message of the list is authorised on its own)
+                    let flags = &obs["perm"][&by];
+                    let kinds = [("delegate", "d"), ("undelegate", "u"), ("redelegate", "r"), ("withdraw", "w")];
+                    let yes: Vec<&str> = kinds.iter().filter(|(_, f)| flags[*f].as_bool().unwrap_or(false)).map(|(k, _)| *k).collect();
+                    let no: Vec<&str> = kinds.iter().filter(|(_, f)| !flags[*f].as_bool().unwrap_or(false)).map(|(k, _)| *k).collect();
+                    if !yes.is_empty() && !no.is_empty() {
+                        let mk = |k: &str, rng: &mut Rng| -> Value {
+                            match k {
+                                "redelegate" => json!({"k":"redelegate","to":"v1","coins":[{"d":"d1","a":rng.range(1,3)}],"tag":"v2"}),
+                                "withdraw" => json!({"k":"withdraw","to":"v1","coins":[],"tag":""}),
+                                _ => json!({"k":k,"to":"v1","coins":[{"d":"d1","a":rng.range(1,3)}],"tag":""}),
+                            }
+                        };
+                        let a = *rng.pick(&yes);
+                        let b = *rng.pick(&no);
+                        msgs = vec![mk(a, rng), mk(b, rng)];
+                    }
+                }
                 json!({"act":"execute","by":by,"args":{"msgs":msgs}})
             }
             38..=45 => rand_probe(rng, &obs, &run.memo, top),
